@@ -4,7 +4,7 @@ from collections import defaultdict
 
 
 import re as _re_mod
-_STD_RE = _re_mod.compile(r'(?<![A-Za-z0-9_])(core|alloc)::')
+_STD_RE = _re_mod.compile(r'(?<![A-Za-z0-9_])(?:(?:minicbor|minicbor_serde|minicbor_io)::alloc|core|alloc)::')   # `extern crate alloc` makes rustc print minicbor::alloc::..
 
 
 class Program:
